@@ -58,13 +58,17 @@ def cases(draw):
             anc = gens.ancestors(m, t, f)
             if anc:
                 t, f = anc[draw(st.integers(0, len(anc) - 1))]
-        if draw(st.integers(0, 9)) < 3:
+        if _ == 0:
+            # the plainest search of all: the listing of one level ("everything below this parent")
+            segs = m.render(t, f).split("/")
+            searches.append({"s": "/".join(segs[:-1] + ["*"]), "labels": ["level-listing"]})
+        elif draw(st.integers(0, 9)) < 3:
             searches.append(draw(gens.gt_search(m, t, f)))
         else:
             searches.append(draw(gens.search_from(m, t, f, allow_gt=False, inseg_star=True, allow_malformed=False)))
     junk = []
     for _ in range(draw(st.integers(1, 6))):
-        kind = draw(st.sampled_from(["stray-dir", "stray-file", "misnamed", "desync", "sidecar", "other-ext", "none-in-cwd"]))
+        kind = draw(st.sampled_from(["stray-dir", "stray-file", "misnamed", "desync", "sidecar", "sidecar", "other-ext", "none-in-cwd"]))
         junk.append({"kind": kind, "near": draw(st.integers(0, len(ents) - 1)), "name": draw(st.sampled_from(JUNK_NAMES)),
                      "n": draw(st.integers(0, 7)), "as_dir": draw(st.booleans())})
     return {"entities": [[t, f] for t, f in ents], "searches": searches, "junk": junk, "as_str": draw(st.integers(0, 3)) == 0}
@@ -83,7 +87,16 @@ def junk_paths(model, cname, ents, junk):
         is_file = tree.is_file_type(model, t)
         folder = os.path.dirname(p) if is_file else p
         kind = j["kind"]
-        if kind in ("stray-dir", "stray-file"):
+        if kind == "sidecar":
+            # the library's own attribute file of this entity (what WriteToPaths.set creates), for files AND folders.
+            # It is data, not an entity - although, next to a folder whose name is a free value, its hidden name
+            # would satisfy the folder's template.
+            out.append((str(model.data_mod.get_data_json_path(Path(p))), False, True))
+            for tt, ff in gens.ancestors(m, t, f):   # ... and of every level above it
+                pa = pm.render(tt, ff) if pm.has_path(tt) else None
+                if pa:
+                    out.append((str(model.data_mod.get_data_json_path(Path(pa))), False, True))
+        elif kind in ("stray-dir", "stray-file"):
             out.append((os.path.join(folder, j["name"]), kind == "stray-dir"))
         elif kind == "none-in-cwd":
             out.append((os.path.join(os.getcwd(), "None"), False))
@@ -106,9 +119,6 @@ def junk_paths(model, cname, ents, junk):
                 alts = [a for a in alts if a != cur and a not in ("*", ">")]
                 if alts:
                     out.append((os.path.join(folder, base.replace(cur, alts[j["n"] % len(alts)], 1)), False))
-        elif kind == "sidecar":
-            base = Path(p)
-            out.append((str(base.with_name("." + base.name).with_suffix(model.path_data_suffix)), False))
         elif kind == "other-ext":
             exts = sorted({l for (tt, kk), sp in m.specs.items() if kk == m.keys(t)[-1] for l in sp.literals} - {f[m.keys(t)[-1]]})
             if exts:
@@ -120,8 +130,12 @@ def add_junk(model, ents, junk, out: Outcome):
     made = 0
     for cname in model.paths:
         pm = model.paths[cname]
-        for path, is_dir in junk_paths(model, cname, ents, junk):
-            if any(pmx.conforms(path) for pmx in model.paths.values()):
+        for item in junk_paths(model, cname, ents, junk):
+            path, is_dir = item[0], item[1]
+            own_data = len(item) > 2 and item[2]
+            if own_data:
+                out.label("junk:own-sidecar")
+            elif any(pmx.conforms(path) for pmx in model.paths.values()):
                 out.label("junk:conforming-skipped")
                 continue
             if os.path.lexists(path):
